@@ -22,14 +22,18 @@ CONSTANTS K,            \* data bytes per packet (39)
           Fills,        \* numbers of extra filler bytes in front of a block
           MaxBlocks,
           Faults,       \* subset of {"none", "drop", "badbp"}
-          TailCheck     \* TRUE: a header arriving before the announced last packet of the page resets (repaired code)
+          TailCheck,    \* TRUE: a header arriving before the announced last packet of the page resets (repaired code)
+          Foreign,      \* other traffic of the magazine between two of our pages: subset of {"none", "page", "stream", "mag"}
+                        \*   "page": header + first packet of another page of our magazine; "stream": our page number with
+                        \*   another stream number; "mag": a header of another magazine in the middle of our page (parallel mode)
+          TailAtForeign \* TRUE (as coded): the missing-tail test is made at EVERY header of our magazine, before the page filter
 
 BS == 300
 FILL == 301
 NoBP == 13              \* block pointer value "no block starts in this packet" (13 * 3 = 39)
 
-VARIABLES blocks, fault, items, pos, rx, out
-vars == <<blocks, fault, items, pos, rx, out>>
+VARIABLES blocks, fault, fgn, items, pos, rx, out
+vars == <<blocks, fault, fgn, items, pos, rx, out>>
 
 -----------------------------------------------------------------------------
 (* sender *)
@@ -60,17 +64,25 @@ Wire(bl) == LET w == Lay(bl, 1, <<>>) IN IF Len(w) % K = 0 THEN w ELSE w \o Rep(
 FirstBS(d) == LET idx == {i \in 1..Len(d) : d[i] = BS} IN
               IF idx = {} THEN NoBP ELSE ((CHOOSE i \in idx : \A j \in idx : i <= j) - 1) \div 3
 
-\* the transmission: headers and packets
-Items(bl) ==
+\* the transmission: headers and packets; fg = kind of foreign traffic
+Items(bl, fg) ==
   LET w == Wire(bl)
       n == Len(w) \div K
       pk(j) == LET d == SubSeq(w, (j - 1) * K + 1, j * K) IN
                [t |-> "P", page |-> (j - 1) \div NP, no |-> ((j - 1) % NP) + 1, bp |-> FirstBS(d), data |-> d]
       hd(p) == [t |-> "H", page |-> p, ci |-> (p + 14) % 16,
                 n |-> IF (p + 1) * NP <= n THEN NP ELSE n - p * NP]
+      \* behind the last packet of page p (j = its last packet)
+      after(j) == IF j % NP # 0 /\ j # n THEN <<>>
+                  ELSE LET p == (j - 1) \div NP IN
+                       CASE fg = "page"   -> <<[t |-> "X", page |-> p], [t |-> "P", page |-> p, no |-> 1, bp |-> 0, data |-> Rep(FILL, K)]>>
+                         [] fg = "stream" -> <<[t |-> "S", page |-> p]>>
+                         [] OTHER -> <<>>
+      \* behind the first packet of a page
+      mid(j) == IF fg = "mag" /\ (j - 1) % NP = 0 THEN <<[t |-> "M", page |-> (j - 1) \div NP]>> ELSE <<>>
       RECURSIVE Sq(_)
       Sq(j) == IF j > n THEN <<>>
-                ELSE (IF (j - 1) % NP = 0 THEN <<hd((j - 1) \div NP)>> ELSE <<>>) \o <<pk(j)>> \o Sq(j + 1)
+                ELSE (IF (j - 1) % NP = 0 THEN <<hd((j - 1) \div NP)>> ELSE <<>>) \o <<pk(j)>> \o mid(j) \o after(j) \o Sq(j + 1)
   IN Sq(1)
 
 \* where (page) each block's separator lies, for the Resume property
@@ -115,7 +127,10 @@ Scan(r, d, bp, col) ==
             ELSE Decode([r EXCEPT !.buf = <<>>, !.left = 4, !.app = -1], d, bp, i)
 
 Feed(r, it) ==
-  IF it.t = "H"
+  IF it.t = "M" THEN r                       \* header of another magazine: does not end our page
+  ELSE IF it.t \in {"X", "S"}                \* header of our magazine that is not for us: ends our page, nothing accepted until ours
+  THEN LET r1 == IF TailAtForeign /\ TailCheck /\ r.packet <= r.np THEN Reset(r) ELSE r IN [r1 EXCEPT !.np = 0]
+  ELSE IF it.t = "H"
   THEN LET r1 == IF it.ci # r.ci \/ (TailCheck /\ r.packet <= r.np) THEN Reset(r) ELSE r
        IN [r1 EXCEPT !.ci = (it.ci + 1) % 16, !.packet = 1, !.np = it.n]
   ELSE IF r.np = 0 THEN r
@@ -126,10 +141,11 @@ Feed(r, it) ==
 -----------------------------------------------------------------------------
 Block == [app : {3}, size : Sizes, fill : Fills]
 Init == /\ blocks \in UNION {[1..n -> Block] : n \in 1..MaxBlocks}
-        /\ items = Items(blocks)
+        /\ fgn \in Foreign
+        /\ items = Items(blocks, fgn)
         /\ fault \in {[k |-> "none", at |-> 0]}
-                     \cup (IF "drop" \in Faults THEN {[k |-> "drop", at |-> i] : i \in 1..Len(Items(blocks))} ELSE {})
-                     \cup (IF "badbp" \in Faults THEN {[k |-> "badbp", at |-> i] : i \in {j \in 1..Len(Items(blocks)) : Items(blocks)[j].t = "P"}} ELSE {})
+                     \cup (IF "drop" \in Faults THEN {[k |-> "drop", at |-> i] : i \in 1..Len(Items(blocks, fgn))} ELSE {})
+                     \cup (IF "badbp" \in Faults THEN {[k |-> "badbp", at |-> i] : i \in {j \in 1..Len(Items(blocks, fgn)) : Items(blocks, fgn)[j].t = "P"}} ELSE {})
         /\ pos = 1 /\ rx = Rx0 /\ out = <<>>
 
 Step == /\ pos <= Len(items)
@@ -137,7 +153,7 @@ Step == /\ pos <= Len(items)
                it1 == IF fault.k = "badbp" /\ fault.at = pos THEN [it EXCEPT !.bp = -1] ELSE it
                r1 == IF fault.k = "drop" /\ fault.at = pos THEN rx ELSE Feed(rx, it1)
            IN /\ rx' = [r1 EXCEPT !.got = <<>>] /\ out' = out \o r1.got
-        /\ pos' = pos + 1 /\ UNCHANGED <<blocks, fault, items>>
+        /\ pos' = pos + 1 /\ UNCHANGED <<blocks, fault, fgn, items>>
 Next == Step
 Spec == Init /\ [][Next]_vars
 
